@@ -20,6 +20,11 @@ def decorate(ctx, w, mon_p=0.5):
     sc = {"cfg": w["cfg"], "arr": arr, "elid": rng.choice(["p1", "east-3"])}
     if rng.random() < mon_p:
         sc["mon"] = {"incl": rng.choice([0, 1]), "gaps": [rng.choice([0, 1, 1, 2, 3]) for _ in range(rng.randint(1, 6))]}
+    if rng.random() < 0.08:
+        # the port is the last element of the path (out = None / never assigned): only counters and samples are seen
+        sc["noout"] = rng.choice([1, 2])
+        sc["arr"] = [a for a in sc["arr"] if "after" not in a]
+        sc["mon"] = {"incl": rng.choice([0, 1]), "gaps": [rng.choice([0, 1, 1, 2, 3]) for _ in range(rng.randint(3, 8))]}
     return sc
 
 
